@@ -29,13 +29,26 @@ import (
 )
 
 const (
-	// id offset of the SAN-exactness companion of a Create case (see execCreate)
-	sansCompanionOffset = 1000000
+	// id offset of the trust-domain companion of a Create case (see execCreate)
+	tdCompanionOffset = 1000000
 
-	findComma    = "C09-K4-comma-identity-extra-sans"
-	findOidc     = "C09-K4-oidc-short-sub-panic"
-	findXfccAddr = "C09-K11-xfcc-non-ip-peer-panic"
+	findTd = "C09-impersonation-trust-domain-unchecked"
 )
+
+// inCallerTrustDomain: the impersonated identity lies in the trust domain of one of the caller's
+// SPIFFE identities (used only to decide which cases get the companion case / finding label).
+func inCallerTrustDomain(callerIDs []string, imp string) bool {
+	r, err := spiffe.ParseIdentity(imp)
+	if err != nil {
+		return false
+	}
+	for _, s := range callerIDs {
+		if c, err := spiffe.ParseIdentity(s); err == nil && c.TrustDomain == r.TrustDomain {
+			return true
+		}
+	}
+	return false
+}
 
 // ------------------------------------------------------------------ fake authenticator
 
@@ -340,6 +353,9 @@ func runCreate(c *vlib.Collector, r *vlib.Rand, id int, env *createEnv) {
 			for i := range in.auth {
 				if in.auth[i].hasCaller {
 					in.auth[i].k = k
+					if r.Chance(85) {
+						in.auth[i].ids = []string{"spiffe://cluster.local/ns/" + zt.ns + "/sa/" + zt.sa}
+					}
 				}
 			}
 			var same []podSpec
@@ -352,7 +368,7 @@ func runCreate(c *vlib.Collector, r *vlib.Rand, id int, env *createEnv) {
 			if r.Chance(15) {
 				tgt = vlib.Pick(r, cl.pods)
 			}
-			td := vlib.Pick(r, []string{"cluster.local", "cluster.local", "other.td", "", "a@b"})
+			td := vlib.Pick(r, []string{"cluster.local", "cluster.local", "cluster.local", "cluster.local", "other.td", "", "a@b"})
 			switch r.Intn(10) {
 			case 0:
 				td += ",istiod.istio-system.svc,x"
@@ -407,6 +423,13 @@ func execCreate(c *vlib.Collector, id int, env *createEnv, in createIn) {
 		}
 		authns = append(authns, f)
 		rsTerms = append(rsTerms, vlib.App("Build_auth_result", callerTerm, vlib.B(a.hasErr)))
+	}
+	var issuedTo []string
+	for _, a := range in.auth {
+		if a.hasCaller && !a.hasErr && len(a.ids) > 0 {
+			issuedTo = a.ids
+			break
+		}
 	}
 	imp := ""
 	var reqMeta *structpb.Struct
@@ -531,14 +554,14 @@ func execCreate(c *vlib.Collector, id int, env *createEnv, in createIn) {
 	c.Add(vlib.Case{ID: id, Term: term, Tags: tags, Trivial: len(in.auth) == 0,
 		Sample: map[string]any{"kind": "CreateCertificate", "identities": allIDs, "impersonated": imp, "validity_s": v,
 			"csr": in.csr.kind, "ca": cfg.name, "cluster_ids": in.clusterIDs, "observed": tag}})
-	if hasComma && tag == "obs=issued" {
-		// companion case: only "SAN entries = selected identities", the part of the oracle the main
-		// case leaves out when a selected identity contains a comma (known finding)
-		cid := id + sansCompanionOffset
+	if imp != "" && tag == "obs=issued" && !inCallerTrustDomain(issuedTo, imp) {
+		// companion case: only "the impersonated identity lies in the caller's trust domain", the part
+		// of the oracle the main case leaves out (open finding)
+		cid := id + tdCompanionOffset
 		if c.Wanted(cid) {
-			c.FindingOf[cid] = findComma
-			c.Add(vlib.Case{ID: cid, Term: "(CreateSans " + vlib.NI(cid) + strings.TrimPrefix(term, "(Create "+vlib.NI(id)),
-				Tags: []string{"sans-companion"}, Sample: map[string]any{"kind": "CreateCertificate (SAN exactness only)", "of_case": id,
+			c.FindingOf[cid] = findTd
+			c.Add(vlib.Case{ID: cid, Term: "(CreateTd " + vlib.NI(cid) + strings.TrimPrefix(term, "(Create "+vlib.NI(id)),
+				Tags: []string{"td-companion"}, Sample: map[string]any{"kind": "CreateCertificate (impersonated trust domain only)", "of_case": id,
 					"identities": allIDs, "impersonated": imp, "cluster_ids": in.clusterIDs, "ca": cfg.name}})
 		}
 	}
@@ -624,7 +647,7 @@ func TestGen(t *testing.T) {
 	for i := 0; i < nCreate; i++ {
 		id++
 		sub := rc.Sub()
-		if c.Wanted(id) || c.Wanted(id+sansCompanionOffset) {
+		if c.Wanted(id) || c.Wanted(id+tdCompanionOffset) {
 			runCreate(c, sub, id, env)
 		}
 	}
